@@ -188,6 +188,11 @@ def make_real_self(c, fields):
             pass
     if issubclass(cls, list):
         raise NotCheckable("list subclass without make_self")
+    if getattr(cls, "__abstractmethods__", None):
+        # an abstract base whose concrete method is under contract (BaseScreen.start/stop): the receiver is an
+        # instance of a subclass that adds nothing but the permission to be instantiated
+        cls = type(cls)(cls.__name__, (cls,), {"__module__": cls.__module__})
+        cls.__abstractmethods__ = frozenset()
     obj = object.__new__(cls)
     for k, v in fields.items():
         try:
